@@ -8,6 +8,7 @@ import (
 	"os"
 	"runtime"
 	"runtime/metrics"
+	"sync"
 	"sync/atomic"
 	"testing/synctest"
 	"time"
@@ -80,6 +81,7 @@ type SimConn struct {
 
 	// duplex mode (a real client goroutine on the other end, engine E2)
 	duplex       bool
+	dmu          sync.Mutex
 	c2s          []byte
 	c2sClosed    bool
 	s2cRead      int
@@ -353,6 +355,10 @@ func neverReady() bool { return false }
 // Write implements net.Conn; the written bytes are the wire tap.
 func (c *SimConn) Write(p []byte) (int, error) {
 	c.rt.K.Yield(c.task, "write")
+	if c.duplex {
+		c.dmu.Lock()
+		defer c.dmu.Unlock()
+	}
 	c.ops++
 	if c.ops > c.budget {
 		c.wedge("operation budget exhausted")
@@ -436,6 +442,10 @@ func (c *SimConn) Write(p []byte) (int, error) {
 // Close implements net.Conn.
 func (c *SimConn) Close() error {
 	c.rt.K.Yield(c.task, "close")
+	if c.duplex {
+		c.dmu.Lock()
+		defer c.dmu.Unlock()
+	}
 	c.Closed++
 	if c.Closed == 1 {
 		if c.cc.Measure {
@@ -446,6 +456,12 @@ func (c *SimConn) Close() error {
 		c.rec("close", "")
 		if n := len(c.Events); n > 0 {
 			c.CloseSeq = c.Events[n-1].Seq
+		}
+		if f := c.fault("close-err", 0); f != nil {
+			// the connection is closed, but Close reports an error (as a TLS
+			// connection does when its close_notify cannot be written)
+			c.FaultFired["close-err"]++
+			return errSimBroken
 		}
 		return nil
 	}
